@@ -22,8 +22,8 @@ import Tickit.Model.RBFlush
     reorder (the model would be wrong about the window order otherwise).
 
   The operations of `Life.Op` keep their meaning (`Life.step`); this layer adds operations and keeps the state they
-  need next to the `St` of the lower layers.  No theorem of Props/C08 is about this layer: it is tied to the code by
-  the correspondence check only.
+  need next to the `St` of the lower layers.  The theorems about this layer are `sigwinch_list_safe`, `top_no_ub`,
+  `top_lifetime_inv` and `top_all_released` (Props/C08.lean; Proof/LifeSigwinch.lean, LifeTop.lean, LifeTopEnd.lean).
 -/
 namespace Tickit
 namespace Life
@@ -63,14 +63,14 @@ inductive Tok where
 deriving Repr, Inhabited
 
 /-- Configuration of this layer: the repairs of the lower layers, and whether `tickit_destroy` makes a root window
-    that outlives the instance forget it (fixes/C08_rootwin_outlives_tickit.patch). -/
+    that outlives the instance forget it (repair 6812027). -/
 structure TCfg where
   base : Cfg
   rootForgetsTickit : Bool := false
   /-- `tickit_term_observe_sigwinch` resets `tt->next_sigwinch_observer` of the terminal it unlinks
-      (fixes/C08_sigwinch_stale_next.patch) -/
+      (repair a2a7841) -/
   sigwinchClearsNext : Bool := false
-  /-- `tickit_term_set_input_fd` forgets the TermKey it destroys (fixes/C08_set_input_fd_termkey.patch) -/
+  /-- `tickit_term_set_input_fd` forgets the TermKey it destroys (repair f040fc7) -/
   setInputFdClearsTermkey : Bool := false
 deriving Repr, Inhabited
 
@@ -695,6 +695,24 @@ def xstepCore (tc : TCfg) (top : Top) : XOp → Out (Top × String) :=
 def xstep (tc : TCfg) (top : Top) (xop : XOp) : Out (Top × String) := do
   let (top, r) ← xstepCore tc top xop
   pure (top.swSync tc, r)
+
+/-- Is anything still allocated, in this layer or below?  (The toplevel instance or one of its watches, a further
+    terminal, an entry of the SIGWINCH observer list or the handler installed for it.) -/
+def Top.anythingLeft (top : Top) : Bool :=
+  Life.anythingLeft top.st ||
+  (match top.inst with
+   | some i => !i.freed || !i.laters.isEmpty || !i.timers.isEmpty
+   | none => false) ||
+  top.xterms.any (fun x => !x.freed) || top.swFirst.isSome || top.swHandler
+
+/-- A history at this layer: the operations one after the other; the first failure ends it. -/
+def xrunOps (tc : TCfg) : Top → List XOp → Out Top
+  | top, [] => .ok top
+  | top, op :: rest =>
+    match xstep tc top op with
+    | .ok (top', _) => xrunOps tc top' rest
+    | .ub k w => .ub k w
+    | .fuel => .fuel
 
 end Life
 end Tickit
